@@ -33,13 +33,19 @@ def main():
                 e.pop("unit", None)
     edges += chain
     with scratch() as d:
+        if not a.only:
+            # every simplify step the repository's own tests perform, with the access trace recorded
+            from ..testrec import add_test_edges
+            tedges, _ = add_test_edges(rep, a.tier, d, trace_ops="simplify")
+            edges += [e for e in tedges if e["op"] == "simplify"]
         decide_edges(rep, edges, {"differ", "uninit", "safety", "trace", "cfg"},
                      stepbound=8000 if quick else 60000, workdir=d)
     rep.add_cov(first_step_carriers=n_first)
     rep.cov["rule"] = ("one case = simplify applied to a corpus procedure (generated quasi-affine index expressions with / and % "
                        "and negative intermediates, guards, shadowed iterators) or to the result of another primitive; TLC replays "
                        "the write/reduce/alloc event trace (location and shape of every event) of the source in the simplified "
-                       "procedure on every admissible input and compares final states; non-trivial = simplify changed the IR")
+                       "procedure on every admissible input and compares final states; non-trivial = simplify changed the IR; the simplify "
+                       "steps performed by the repository's own tests (recorded) are judged the same way")
     rep.assumptions += ["bounded inputs n in 1..4 and literal neighbourhoods", "read locations are compared only through final values"]
     return rep.finish()
 
